@@ -62,6 +62,13 @@ def shrink_pick(cands):
     return min(cands, key=lambda c: (len(c[0]), c[0]))
 
 
+def spec_same(prop, a, s):
+    """does the observed line [a] meet the specification line [s]?  Equality unless the property defines `meets`."""
+    if hasattr(prop, 'meets'):
+        return prop.meets(a, s)
+    return a == s
+
+
 def run_check(prop, tier, seed, replay=None):
     t0 = time.time()
     rng = random.Random(seed)
@@ -120,14 +127,14 @@ def run_check(prop, tier, seed, replay=None):
     for p in prop.profiles:
         for i, c in enumerate(cases):
             a = impl[p][i]
-            if spec[i] != '-' and a != spec[i]:
+            if spec[i] != '-' and not spec_same(prop, a, spec[i]):
                 prop_fails.append((c, a, mirror[i], spec[i], p))
             elif mirror[i] == 'UNSUP':
                 unsupported += 1          # behaviour outside the model: not comparable
             elif not prop.same(a, mirror[i]):
                 corr_breaks.append((c, a, mirror[i], spec[i], p))
     for i, c in enumerate(cases):
-        if spec[i] != '-' and mirror[i] != 'UNSUP' and mirror[i] != spec[i]:
+        if spec[i] != '-' and mirror[i] != 'UNSUP' and not spec_same(prop, mirror[i], spec[i]):
             if hasattr(prop, 'known_case') and prop.known_case(c):
                 continue      # a recorded finding: the faithful mirror violates the property exactly like the code
             model_bugs.append((c, '-', mirror[i], spec[i], '-'))
@@ -135,6 +142,7 @@ def run_check(prop, tier, seed, replay=None):
     # ---- direct predicates on the implementation
     d_evals, d_fails, d_samples, d_cov = prop.direct(exes, rng, tier) if not replay else (0, [], [], {})
     # predicates over groups of cases of this run (e.g. the same program under several drive modes)
+    prop.last_spec = spec
     if hasattr(prop, 'group_check'):
         for p in prop.profiles:
             ge, gf, gs, gc = prop.group_check(cases, impl[p])
@@ -201,7 +209,7 @@ def run_check(prop, tier, seed, replay=None):
                 for p in prop.profiles:
                     im = [prop.canon_impl(x) for x in lib.run_impl(exes[p], cs)]
                     bad = [(c, a, prop.canon_model(m), s, p) for c, a, m, s in zip(cs, im, ms, ss)
-                           if s != '-' and a != s and not prop.known(c, a, s)]
+                           if s != '-' and not spec_same(prop, a, s) and not prop.known(c, a, s)]
                     if bad:
                         found = shrink_pick(bad)
                         break
